@@ -10,6 +10,8 @@
 #include "time_zone_impl.h"  // /repo/src: the library's own test-only cache reset
 #include "tzif.h"
 
+namespace sim { TzData synthx_zone(uint64_t seed); }
+
 namespace sim {
 
 const std::string& repo_root() {
@@ -65,6 +67,7 @@ static int hexv(char c) { return c <= '9' ? c - '0' : (c | 32) - 'a' + 10; }
 std::string base_bytes(const std::string& base) {
   if (base.compare(0, 8, "shipped:") == 0) return shipped_bytes(base.substr(8));
   if (base.compare(0, 6, "synth:") == 0) return write_tzif(synth_zone(strtoull(base.c_str() + 6, nullptr, 10)));
+  if (base.compare(0, 7, "synthx:") == 0) return write_tzif(synthx_zone(strtoull(base.c_str() + 7, nullptr, 10)));
   if (base.compare(0, 7, "marker:") == 0) {
     size_t c1 = base.find(':', 7);
     std::string abbr = base.substr(7, c1 - 7);
